@@ -292,6 +292,11 @@ func dialRoute(
 		}
 	}()
 
+	// Rewrites below apply to this backend only: work on copies so that a later attempt
+	// at another backend starts from the client's original handshake again.
+	handshakeCopy, handshakeCtxCopy := *handshake, *handshakeCtx
+	handshake, handshakeCtx = &handshakeCopy, &handshakeCtxCopy
+
 	if route.ProxyProtocol {
 		header := protoutil.ProxyHeader(srcAddr, dst.RemoteAddr())
 		if _, err = header.WriteTo(dst); err != nil {
